@@ -146,16 +146,17 @@ class Style:
     None the canonical spelling is used."""
 
     def __init__(self, bits=None, full_parens=True):
-        self.bits = iter(bits) if bits is not None else None
+        self.bits = list(bits) if bits is not None else None
+        self.i = 0
         self.full_parens = full_parens
 
     def pick(self, n):
-        if self.bits is None:
+        if not self.bits:
             return 0
-        try:
-            return next(self.bits) % n
-        except StopIteration:
-            return 0
+        # cyclic, shifted on every round, so that long grammars keep varying
+        v = self.bits[self.i % len(self.bits)] + self.i // len(self.bits)
+        self.i += 1
+        return v % n
 
 
 _TWO_SPELLINGS = ('seq', 'right', 'left', 'choice', 'opt', 'rep', 'sep')
@@ -168,7 +169,6 @@ class _Plain:
         self.st = st
         self.bits = st.bits
         self.full_parens = st.full_parens
-        self.used = False
 
     def pick(self, n):
         return 0
@@ -1074,3 +1074,255 @@ def g_to_dict(g):
 def g_from_dict(d):
     return G(d['rules'], d.get('ignores', ()), d.get('mode', 'text'), d.get('header'),
              d.get('extends'), d.get('pysections', ()), d.get('ignore_pos', 0))
+
+
+# ------------------------------------------------ layout-rich renderer (C19, C11, C12)
+# Precedence of grammar.txt: postfix forms tightest (4), then // /? (3), then << >> (2),
+# then <| |> where (1), then | (0); binary operators associate to the left.  Atoms are 5.
+
+
+class Layout(Style):
+    """Style + layout decisions (line breaks, comments, redundant parentheses, separators,
+    quote styles, minimal parentheses).  Everything is drawn from `bits`."""
+
+    def __init__(self, bits=None, minimal=True):
+        Style.__init__(self, bits, full_parens=not minimal)
+        self.minimal = minimal
+
+    def nl(self):
+        """Text for a place where the metagrammar allows a line break (wrap(...))."""
+        k = self.pick(9)
+        if k < 5:
+            return ' '
+        if k == 5:
+            return '\n    '
+        if k == 6:
+            return ' # note\n  '
+        if k == 7:
+            return '\n\n  '
+        return ''
+
+
+def _quote(s, mode, st):
+    if mode == 'bytes':
+        b = s.encode('latin-1') if isinstance(s, str) else s
+        r = repr(b)
+        k = st.pick(3)
+        if k == 1 and b'"' not in b and b"'" not in b and b'\\' not in b:
+            return 'b"%s"' % r[2:-1]
+        if k == 2 and b'\\' not in b and b'"' not in b and r[1] == "'":
+            return 'B"""%s"""' % r[2:-1]
+        return r
+    r = repr(s)
+    k = st.pick(3)
+    if k == 1 and '"' not in s and "'" not in s and '\\' not in s and r[0] == "'":
+        return '"%s"' % r[1:-1]
+    if k == 2 and '"' not in s and "'" not in s and '\\' not in s and '\n' not in s and r[0] == "'":
+        return "'''%s'''" % r[1:-1]
+    return r
+
+
+def render_expr2(n, mode, st):
+    """Returns (text, level)."""
+    k = n[0]
+
+    def R(x, minlevel):
+        t, lv = render_expr2(x, mode, st)
+        if lv < minlevel or (st.pick(7) == 0):
+            return '(%s%s%s)' % (st.nl().lstrip(' ') if st.pick(3) == 0 else '', t,
+                                 st.nl().rstrip(' ') if st.pick(3) == 0 else '')
+        return t
+
+    def binop(a, op, b, level):
+        left = R(a, level)
+        right = R(b, level + 1)
+        return '%s%s%s%s%s' % (left, st.nl() or ' ', op, st.nl() or ' ', right), level
+
+    def args(items):
+        out = []
+        for it in items:
+            out.append(st.nl().lstrip(' ') + it + st.nl().rstrip(' ') if st.pick(4) == 0 else it)
+        return ', '.join(out)
+    pychild = any(c[0] == 'py' for c in children(n)) if k in _TWO_SPELLINGS else False
+    ctor = (not pychild) and st.pick(2) == 1
+    if k == 'lit':
+        return _quote(n[1], mode, st), 5
+    if k == 'ci':
+        return _quote(n[1], mode, st) + ('i' if st.pick(2) else 'I'), 5
+    if k == 'rx':
+        return _rxs(n[1], mode), 5
+    if k == 'byte':
+        return ('0x%02x' % n[1] if not st.pick(2) else '0X%02X' % n[1]), 5
+    if k == 'ref':
+        return n[1], 5
+    if k == 'py':
+        return '`%s`' % n[1], 5
+    if k == 'seq':
+        items = [R(c, 0) for c in n[1]]
+        if ctor and n[1]:
+            return 'Seq(%s)' % args(items), 5
+        return '[%s]' % args(items), 5
+    if k in ('right', 'left'):
+        if ctor:
+            return '%s(%s)' % ('Right' if k == 'right' else 'Left', args([R(n[1], 0), R(n[2], 0)])), 5
+        return binop(n[1], '>>' if k == 'right' else '<<', n[2], 2)
+    if k == 'choice':
+        if ctor:
+            return 'Choice(%s)' % args([R(c, 0) for c in n[1]]), 5
+        parts = [R(n[1][0], 0)]
+        for c in n[1][1:]:
+            parts.append((st.nl() or ' ') + '|' + (st.nl() or ' ') + R(c, 1))
+        return ''.join(parts), 0
+    if k == 'opt':
+        if ctor:
+            return 'Opt(%s)' % R(n[1], 0), 5
+        return R(n[1], 4) + '?', 4
+    if k == 'rep':
+        _, e, lo, hi = n
+        symbolic = isinstance(lo, str) or isinstance(hi, str)
+        if ctor and not symbolic:
+            if (lo in (0, None)) and hi is None:
+                return 'List(%s)' % R(e, 0), 5
+            if lo == 1 and hi is None:
+                return ('Some(%s)' % R(e, 0) if st.pick(2) else 'List(%s, min_len=1)' % R(e, 0)), 5
+            a = []
+            if lo is not None:
+                a.append('min_len=%d' % lo)
+            if hi is not None:
+                a.append('max_len=%d' % hi)
+            return 'List(%s, %s)' % (R(e, 0), ', '.join(a)), 5
+        if (lo in (0, None)) and hi is None:
+            return R(e, 4) + '*', 4
+        if lo == 1 and hi is None:
+            return R(e, 4) + '+', 4
+        if lo == hi and lo is not None:
+            return R(e, 4) + '{%s}' % _bound(lo), 4
+        return R(e, 4) + '{%s,%s}' % (_bound(lo), _bound(hi)), 4
+    if k == 'expect':
+        return 'Expect(%s)' % R(n[1], 0), 5
+    if k == 'expectnot':
+        return 'ExpectNot(%s)' % R(n[1], 0), 5
+    if k == 'skip':
+        return 'Skip(%s)' % args([R(c, 0) for c in n[1]]), 5
+    if k == 'longest':
+        return 'Longest(%s)' % args([R(c, 0) for c in n[1]]), 5
+    if k == 'backtrack':
+        return 'Backtrack(%d)' % n[1], 5
+    if k == 'fail':
+        return ('Fail()' if n[1] is None else 'Fail(%s)' % repr(n[1])), 5
+    if k == 'sep':
+        _, e, s, keep, trailer, empty, req = n
+        if not keep and empty and not req and not ctor:
+            return binop(e, '/?' if trailer else '//', s, 3)
+        kw = []
+        if keep or st.pick(2):
+            kw.append('discard_separators=%s' % (not keep))
+        if trailer or st.pick(2):
+            kw.append('allow_trailer=%s' % trailer)
+        if not empty or st.pick(2):
+            kw.append('allow_empty=%s' % empty)
+        if req or st.pick(2):
+            kw.append('require_separator=%s' % req)
+        if pychild:
+            # operator form is impossible for these options; keep the constructor form
+            pass
+        return 'Sep(%s)' % ', '.join([R(e, 0), R(s, 0)] + kw), 5
+    if k == 'let':
+        sign = ['=', ':', '=>'][st.pick(3)]
+        return '(let %s %s %s%sin%s%s)' % (n[1], sign, R(n[2], 0), st.nl() or ' ', st.nl() or ' ', R(n[3], 0)), 5
+    if k == 'where':
+        return binop(n[1], 'where', n[2], 1)
+    if k == 'apply':
+        return binop(n[1], '|>', n[2], 1)
+    if k == 'applyl':
+        return binop(n[1], '<|', n[2], 1)
+    if k == 'call':
+        a = [R(x, 0) for x in n[2]] + ['%s%s%s' % (kw, ['=', ':', '=>'][st.pick(3)], R(x, 0)) for kw, x in n[3]]
+        return '%s(%s)' % (n[1], args(a)), 5
+    if k == 'optable':
+        rows = []
+        for assoc, ops in n[2]:
+            rows.append('    %s: %s' % (assoc, ', '.join(R(o, 0) for o in ops)))
+        return '%s between {\n%s\n}' % (R(n[1], 5), '\n'.join(rows)), 4
+    raise ValueError(k)
+
+
+def render_rule2(r, mode, st):
+    sign = ['=', ':', '=>'][st.pick(3)]
+    sep_nl = st.nl() if st.pick(3) == 0 else ' '
+    if r[0] == 'rule':
+        _, name, params, expr = r
+        ps = '' if params is None else '(%s)' % ', '.join(params)
+        return '%s%s %s%s%s' % (name, ps, sign, sep_nl or ' ', render_expr2(expr, mode, st)[0])
+    _, name, params, members = r
+    ps = '' if params is None else '(%s)' % ', '.join(params)
+    lines = []
+    for kind, mname, e in members:
+        msign = ['=', ':', '=>'][st.pick(3)]
+        body = render_expr2(e, mode, st)[0]
+        if kind == 'field':
+            lines.append('%s %s %s' % (mname, msign, body))
+        elif kind == 'let':
+            lines.append('let %s %s %s' % (mname, msign, body))
+        elif kind == 'pass':
+            lines.append('pass %s' % body)
+        else:
+            lines.append('requires %s' % body)
+    sep = [';', '\n    ', ' ;\n    ', '\n\n    # member\n    '][st.pick(4)]
+    trailer = ['', ';', '\n'][st.pick(3)] if lines else ''
+    return 'class %s%s {%s%s%s\n}' % (name, ps, '\n    ' if st.pick(2) else ' ', sep.join(lines), trailer)
+
+
+def first_token_is_plain(expr):
+    """Can `expr` be written as a bare grammar body?  (Not when it starts with inline Python,
+    which the metagrammar reads as a Python statement, or looks like a definition.)"""
+    n = expr
+    while True:
+        k = n[0]
+        if k == 'py':
+            return False
+        if k in ('right', 'left', 'where', 'apply', 'sep', 'opt', 'rep'):
+            n = n[1]
+            continue
+        if k == 'applyl':
+            n = n[1]
+            continue
+        if k == 'choice':
+            n = n[1][0]
+            continue
+        return k in ('lit', 'ci', 'rx', 'seq', 'byte')
+
+
+def render2(g, bits, header=None, allow_bare=True):
+    """Whole grammar with layout variation; `bits` = list of small ints."""
+    st = Layout(bits)
+    parts = []
+    hdr = g.header if header is None else (None if header is False else header)
+    if hdr:
+        parts.append('grammar %s%s' % (hdr, ' extends %s' % g.extends if g.extends else ''))
+    for sec in g.pysections:
+        parts.append('```\n%s\n```' % sec)
+    if (allow_bare and not hdr and len(g.rules) == 1 and not g.ignores and not g.pysections
+            and g.rules[0][0] == 'rule' and g.rules[0][1] == 'start' and g.rules[0][2] is None
+            and first_token_is_plain(g.rules[0][3]) and st.pick(2)):
+        return render_expr2(g.rules[0][3], g.mode, st)[0] + ['', '\n', ' # end\n'][st.pick(3)]
+    body = [render_rule2(r, g.mode, st) for r in g.rules]
+    ign = []
+    for name, e in g.ignores:
+        kw = 'ignored' if st.pick(2) else 'ignore'
+        if name:
+            ign.append('%s %s %s %s' % (kw, name, ['=', ':', '=>'][st.pick(3)], render_expr2(e, g.mode, st)[0]))
+        else:
+            ign.append('%s %s' % (kw, render_expr2(e, g.mode, st)[0]))
+    at = min(g.ignore_pos, len(body))
+    body[at:at] = ign
+    parts.extend(body)
+    out = [['', '\n', '# a comment first\n\n', '  \n'][st.pick(4)]]
+    for i, p_ in enumerate(parts):
+        out.append(p_)
+        if i + 1 < len(parts):
+            # python sections and class definitions must end their line
+            after_block = p_.startswith('```')
+            out.append(['\n', '\n\n', ' # trailing comment\n', ';', ' ;\n', '\n# own line\n'][st.pick(6) if not after_block else st.pick(3)])
+    out.append(['\n', '', '\n\n', ' # done'][st.pick(4)])
+    return ''.join(out)
